@@ -159,3 +159,445 @@ Proof.
   specialize (H ["N"%string] [[("N", "N")]; [("N", "N")]]%string [1; 1] [omega_only; omega_only] (mkOpts TNone None false true)).
   vm_compute in H. destruct H as [_ H]. specialize (H eq_refl). discriminate.
 Qed.
+
+(* ================================================================================================ *)
+(* 2. sorting by identifier                                                                           *)
+Section SortFacts.
+Context {A : Type} (key : A -> string).
+Definition le_key (x y : A) : Prop := String.leb (key x) (key y) = true.
+
+Lemma leb_total a b : String.leb a b = false -> String.leb b a = true.
+Proof.
+  unfold String.leb. rewrite (String.compare_antisym b a).
+  destruct (String.compare a b); simpl; congruence.
+Qed.
+Lemma insert_by_perm x : forall l, Permutation (insert_by key x l) (x :: l).
+Proof.
+  induction l as [|y l IH]; simpl. reflexivity.
+  destruct (String.leb (key x) (key y)). reflexivity.
+  rewrite IH. apply perm_swap.
+Qed.
+Lemma sort_by_perm : forall l, Permutation (sort_by key l) l.
+Proof. induction l; simpl. constructor. rewrite insert_by_perm. constructor. assumption. Qed.
+Lemma insert_by_sorted x : forall l, Sorted le_key l -> Sorted le_key (insert_by key x l).
+Proof.
+  induction l as [|y l IH]; intros H; simpl.
+  - repeat constructor.
+  - destruct (String.leb (key x) (key y)) eqn:E.
+    + constructor; auto.
+    + inversion H as [|? ? Hs Hh]; subst. constructor; auto.
+      destruct l as [|z l]; simpl.
+      * constructor. apply leb_total; assumption.
+      * destruct (String.leb (key x) (key z)); constructor.
+        apply leb_total; assumption. inversion Hh; assumption.
+Qed.
+Lemma sort_by_sorted : forall l, Sorted le_key (sort_by key l).
+Proof. induction l; simpl. constructor. apply insert_by_sorted; assumption. Qed.
+Lemma sorted_map : forall l, Sorted le_key l -> Sorted (fun a b => String.leb a b = true) (map key l).
+Proof.
+  induction 1 as [|u l Hs IH Hh]; simpl; constructor; auto.
+  destruct Hh as [|v l' Hv]; simpl; constructor. exact Hv.
+Qed.
+End SortFacts.
+
+(* bisect on the cumulative operator counts recovers the pulse position *)
+Lemma bisect_accumulate : forall (counts : list nat) acc ind,
+  bisect_right (accumulate_from acc counts) (acc + ind) =
+  (fix go (cs : list nat) (i : nat) : nat :=
+     match cs with [] => 0 | c :: r => if c <=? i then S (go r (i - c)) else 0 end) counts ind.
+Proof.
+  induction counts as [|c r IH]; intros acc ind; simpl. reflexivity.
+  destruct (c <=? ind) eqn:E.
+  - apply Nat.leb_le in E. assert (H : acc + c <=? acc + ind = true) by (apply Nat.leb_le; lia). rewrite H.
+    f_equal. replace (acc + ind) with (acc + c + (ind - c)) by lia. apply IH.
+  - apply Nat.leb_gt in E. assert (H : acc + c <=? acc + ind = false) by (apply Nat.leb_gt; lia). rewrite H. reflexivity.
+Qed.
+
+(* ================================================================================================ *)
+(* 3. _concatenate_Hamiltonian                                                                        *)
+Section Ham.
+Variables oper coef : Type.
+Variable oeqb : oper -> oper -> bool.
+Variable ceqb : coef -> coef -> bool.
+Variable czero : coef.
+Hypothesis oeqb_spec : forall a b, reflect (a = b) (oeqb a b).
+
+Notation entry := (entry oper coef).
+Notation ham := (ham oper coef).
+Notation flatten := (flatten oper coef).
+Notation uniq := (uniq oper coef oeqb).
+Notation firsts := (firsts oper coef oeqb).
+Notation mem_op := (mem_op oper oeqb).
+Notation row_of := (row_of oper coef oeqb).
+Notation complete_row := (complete_row coef ceqb czero).
+Notation concatenate_hamiltonian := (concatenate_hamiltonian oper coef oeqb ceqb czero).
+Notation new_id := (new_id oper coef oeqb).
+Notation oper_ids_clash := (oper_ids_clash oper coef oeqb).
+
+(* the code recovers the pulse of a flat operator index by bisect on the cumulative counts; the model tags
+   every flat operator with its pulse position: the two agree *)
+Lemma pulse_of_index_flatten : forall (hs : list ham) p ind dflt, ind < length (flatten_from oper coef p hs) ->
+  p + (fix go (cs : list nat) (i : nat) : nat :=
+     match cs with [] => 0 | c :: r => if c <=? i then S (go r (i - c)) else 0 end)
+    (map (fun h => length (h_entries h)) hs) ind = fst (nth ind (flatten_from oper coef p hs) dflt).
+Proof.
+  induction hs as [|h hs IH]; intros p ind dflt H; simpl in *. lia.
+  rewrite app_length, map_length in H.
+  destruct (length (h_entries h) <=? ind) eqn:E.
+  - apply Nat.leb_le in E. rewrite app_nth2 by (rewrite map_length; lia). rewrite map_length.
+    rewrite <- IH by lia. lia.
+  - apply Nat.leb_gt in E. rewrite app_nth1 by (rewrite map_length; lia).
+    rewrite (nth_indep _ dflt (p, snd dflt)) by (rewrite map_length; lia).
+    rewrite (map_nth (pair p)). simpl. lia.
+Qed.
+Theorem bisect_is_pulse_position (hs : list ham) ind dflt : ind < length (flatten hs) ->
+  pulse_of_index oper coef hs ind = fst (nth ind (flatten hs) dflt).
+Proof.
+  intros H. unfold pulse_of_index, pulse_idx, accumulate.
+  rewrite (bisect_accumulate _ 0 ind). apply (pulse_of_index_flatten hs 0 ind dflt H).
+Qed.
+
+(* ---- distinct operators ---- *)
+Lemma mem_op_true o l : mem_op o l = true <-> In o l.
+Proof.
+  unfold Concat.mem_op. rewrite existsb_exists. split.
+  - intros (x & Hx & E). destruct (oeqb_spec o x); [subst; auto|discriminate].
+  - intros H. exists o. split; auto. destruct (oeqb_spec o o); auto.
+Qed.
+Lemma firsts_in : forall l seen pe, In pe (firsts seen l) -> In pe l /\ ~ In (e_op (snd pe)) seen.
+Proof.
+  induction l as [|x l IH]; intros seen pe H; simpl in *. contradiction.
+  destruct (mem_op (e_op (snd x)) seen) eqn:E.
+  - destruct (IH _ _ H). auto.
+  - destruct H as [->|H].
+    + split; auto. intros Hin. apply mem_op_true in Hin. congruence.
+    + destruct (IH _ _ H) as [H1 H2]. split; auto. intros Hin. apply H2. right; assumption.
+Qed.
+Lemma firsts_nodup : forall l seen, NoDup (map (fun u => e_op (snd u)) (firsts seen l)).
+Proof.
+  induction l as [|x l IH]; intros seen; simpl. constructor.
+  destruct (mem_op (e_op (snd x)) seen); auto.
+  simpl. constructor; auto. intros Hin. apply in_map_iff in Hin. destruct Hin as (u & Eu & Hu).
+  apply firsts_in in Hu. destruct Hu as [_ Hu]. apply Hu. left. symmetry; assumption.
+Qed.
+Lemma firsts_complete : forall l seen pe, In pe l ->
+  In (e_op (snd pe)) seen \/ exists u, In u (firsts seen l) /\ e_op (snd u) = e_op (snd pe).
+Proof.
+  induction l as [|x l IH]; intros seen pe H; simpl in *. contradiction.
+  destruct (mem_op (e_op (snd x)) seen) eqn:E.
+  - destruct H as [->|H]. left. apply mem_op_true; assumption. apply IH; assumption.
+  - destruct H as [->|H]. right. exists pe. split; [left|]; reflexivity.
+    destruct (IH (e_op (snd x) :: seen) pe H) as [[Hx|Hs]|(u & Hu & Eu)].
+    + right. exists x. split; [left; reflexivity|assumption].
+    + left; assumption.
+    + right. exists u. split; [right|]; assumption.
+Qed.
+(* the distinct operators: no operator twice, every operator of every input pulse exactly once *)
+Theorem uniq_nodup hs : NoDup (map (fun u => e_op (snd u)) (uniq hs)).
+Proof. apply firsts_nodup. Qed.
+Theorem uniq_complete hs pe : In pe (flatten hs) -> exists u, In u (uniq hs) /\ e_op (snd u) = e_op (snd pe).
+Proof. intros H. destruct (firsts_complete (flatten hs) [] pe H) as [[]|]; assumption. Qed.
+Theorem uniq_sub hs u : In u (uniq hs) -> In u (flatten hs).
+Proof. intros H. apply firsts_in in H. tauto. Qed.
+
+(* ---- rejection: one operator under two identifiers ---- *)
+Theorem oper_ids_clash_spec hs :
+  oper_ids_clash hs = true <->
+  exists pe1 pe2, In pe1 (flatten hs) /\ In pe2 (flatten hs) /\ e_op (snd pe1) = e_op (snd pe2) /\ e_id (snd pe1) <> e_id (snd pe2).
+Proof.
+  unfold Concat.oper_ids_clash. rewrite existsb_exists. split.
+  - intros (u & Hu & H). apply existsb_exists in H. destruct H as (pe & Hpe & H).
+    apply andb_true_iff in H. destruct H as [H1 H2].
+    exists u, pe. repeat split; auto. apply uniq_sub; assumption.
+    destruct (oeqb_spec (e_op (snd u)) (e_op (snd pe))); [assumption|discriminate].
+    intros E. rewrite E in H2. rewrite String.eqb_refl in H2. discriminate.
+  - intros (pe1 & pe2 & H1 & H2 & Eo & Ei).
+    destruct (uniq_complete hs pe1 H1) as (u & Hu & Eu).
+    exists u. split; auto. apply existsb_exists.
+    destruct (String.eqb_spec (e_id (snd u)) (e_id (snd pe1))) as [E1|N1].
+    + exists pe2. split; auto. apply andb_true_iff. split.
+      * rewrite Eu, Eo. destruct (oeqb_spec (e_op (snd pe2)) (e_op (snd pe2))); auto.
+      * rewrite E1. destruct (String.eqb_spec (e_id (snd pe1)) (e_id (snd pe2))); auto.
+    + exists pe1. split; auto. apply andb_true_iff. split.
+      * rewrite Eu. destruct (oeqb_spec (e_op (snd pe1)) (e_op (snd pe1))); auto.
+      * destruct (String.eqb_spec (e_id (snd u)) (e_id (snd pe1))); auto.
+Qed.
+Theorem concat_rejects_oper_ids k hs : oper_ids_clash hs = true -> concatenate_hamiltonian k hs = inl (EOperIds k).
+Proof. intros H. unfold Concat.concatenate_hamiltonian. rewrite H. reflexivity. Qed.
+
+(* ---- rows ---- *)
+Definition inferable (row : list (option coef)) : bool :=
+  negb (has_none row) || match somes row with [] => true | c :: rest => forallb (ceqb c) rest end.
+Lemma complete_row_control row : complete_row Control row = Some (fill czero row).
+Proof. reflexivity. Qed.
+Lemma complete_row_noise row :
+  complete_row Noise row = if inferable row then complete_row Noise row else None.
+Proof.
+  unfold inferable, Concat.complete_row. destruct (has_none row); simpl; auto.
+  destruct (somes row); auto. destruct (forallb (ceqb c) l); auto.
+Qed.
+Lemma complete_row_some k row : (k = Control \/ inferable row = true) -> exists r, complete_row k row = Some r.
+Proof.
+  intros [->|H]. eexists; reflexivity.
+  destruct k. eexists; reflexivity.
+  unfold inferable in H. unfold Concat.complete_row. destruct (has_none row); simpl in *; [|eexists; reflexivity].
+  destruct (somes row); [eexists; reflexivity|]. rewrite H. eexists; reflexivity.
+Qed.
+Lemma complete_row_none row : inferable row = false -> complete_row Noise row = None.
+Proof.
+  unfold inferable, Concat.complete_row. destruct (has_none row); simpl; [|discriminate].
+  destruct (somes row); [discriminate|]. intros ->. reflexivity.
+Qed.
+(* what a completed row is: the row with its gaps filled by one value c; c = 0 for control, and for noise
+   (if there is a gap) c is the common value of all sensitivities present *)
+Lemma complete_row_spec k row r : complete_row k row = Some r ->
+  exists c, r = fill c row /\ (k = Control -> c = czero) /\
+            (k = Noise -> has_none row = true -> somes row <> [] ->
+             exists rest, somes row = c :: rest /\ forallb (ceqb c) rest = true).
+Proof.
+  destruct k; simpl.
+  - intros H; inversion H. exists czero. split; [reflexivity|]. split; [reflexivity|]. intros E; discriminate E.
+  - destruct (has_none row) eqn:Hn.
+    + destruct (somes row) as [|c rest] eqn:Es.
+      * intros H; inversion H. exists czero. split; [reflexivity|]. split; [intros E; discriminate E|].
+        intros _ _ N. contradiction.
+      * destruct (forallb (ceqb c) rest) eqn:Ef; [|discriminate].
+        intros H; inversion H. exists c. split; [reflexivity|]. split; [intros E; discriminate E|].
+        intros _ _ _. exists rest. auto.
+    + intros H; inversion H. exists czero. split; [reflexivity|]. split; [intros E; discriminate E|].
+      intros _ E. discriminate E.
+Qed.
+
+Lemma fill_concat {X} (c : X) : forall l, fill c (List.concat l) = List.concat (map (fill c) l).
+Proof. unfold fill. intros l. rewrite concat_map. reflexivity. Qed.
+Lemma fill_somes {X} (c : X) row : fill c (map Some row) = row.
+Proof. unfold fill. rewrite map_map. simpl. apply map_id. Qed.
+Lemma fill_nones {X} (c : X) n : fill c (repeat None n) = repeat c n.
+Proof. unfold fill. induction n; simpl; congruence. Qed.
+
+(* one pulse's window of the row of operator o: its own coefficients, or the fill value where absent *)
+Definition window (c : coef) (o : oper) (h : ham) : list coef :=
+  match find (fun e => oeqb o (e_op e)) (h_entries h) with Some e => e_row e | None => repeat c (h_ndt h) end.
+Lemma fill_row_of c hs o : fill c (row_of hs o) = List.concat (map (window c o) hs).
+Proof.
+  unfold Concat.row_of. rewrite fill_concat. rewrite map_map. f_equal. apply map_ext. intros h.
+  unfold window. destruct (find _ _). apply fill_somes. apply fill_nones.
+Qed.
+
+Lemma all_some_forall2 {X Y} (f : X -> option Y) : forall l rows,
+  all_some (map f l) = Some rows -> Forall2 (fun x r => f x = Some r) l rows.
+Proof.
+  induction l as [|x l IH]; intros rows H; simpl in *.
+  - inversion H. constructor.
+  - destruct (f x) eqn:E; [|discriminate]. destruct (all_some (map f l)) eqn:E2; [|discriminate].
+    inversion H; subst. constructor; auto.
+Qed.
+Lemma all_some_exists {X Y} (f : X -> option Y) : forall l,
+  (forall x, In x l -> exists r, f x = Some r) -> exists rows, all_some (map f l) = Some rows.
+Proof.
+  induction l as [|x l IH]; intros H; simpl. eexists; reflexivity.
+  destruct (H x (or_introl eq_refl)) as (r & ->).
+  destruct IH as (rows & ->). intros y Hy. apply H. right; assumption. eexists; reflexivity.
+Qed.
+Lemma all_some_none {X Y} (f : X -> option Y) : forall l x, In x l -> f x = None -> all_some (map f l) = None.
+Proof.
+  induction l as [|y l IH]; intros x H E; simpl in *. contradiction.
+  destruct H as [->|H]. rewrite E. reflexivity.
+  destruct (f y); auto. rewrite (IH x H E). reflexivity.
+Qed.
+
+Definition sorted_uniq (hs : list ham) := sort_by (new_id hs) (uniq hs).
+
+(* structure of a successful result *)
+Lemma concat_result k hs r : concatenate_hamiltonian k hs = inr r ->
+  oper_ids_clash hs = false /\
+  r_ops r = map (fun u => e_op (snd u)) (sorted_uniq hs) /\
+  r_ids r = map (new_id hs) (sorted_uniq hs) /\
+  Forall2 (fun u row => complete_row k (row_of hs (e_op (snd u))) = Some row) (sorted_uniq hs) (r_rows r) /\
+  r_map r = mappings_from oper coef oeqb hs 0 hs.
+Proof.
+  unfold Concat.concatenate_hamiltonian. destruct (oper_ids_clash hs); [discriminate|].
+  fold (sorted_uniq hs).
+  destruct (all_some _) as [rows|] eqn:E; [|discriminate].
+  intros H; inversion H; subst; simpl. repeat split; auto.
+  apply (all_some_forall2 (fun u => complete_row k (row_of hs (e_op (snd u))))). exact E.
+Qed.
+
+Lemma mappings_keys hs : forall l p,
+  map (map fst) (mappings_from oper coef oeqb hs p l) = map (fun h => map (@e_id oper coef) (h_entries h)) l.
+Proof.
+  induction l as [|h l IH]; intros p; simpl. reflexivity.
+  f_equal; [|apply IH]. unfold mapping_of. rewrite map_map. reflexivity.
+Qed.
+
+(* ---- the concatenated Hamiltonian is the inputs' Hamiltonians played one after another ---- *)
+Theorem concat_hamiltonian_denote k hs r : concatenate_hamiltonian k hs = inr r ->
+  (* operators: the distinct operators of the inputs, each once *)
+  NoDup (r_ops r) /\
+  (forall pe, In pe (flatten hs) -> In (e_op (snd pe)) (r_ops r)) /\
+  (forall o, In o (r_ops r) -> exists pe, In pe (flatten hs) /\ e_op (snd pe) = o) /\
+  (* identifiers: sorted *)
+  Sorted (fun a b => String.leb a b = true) (r_ids r) /\
+  (* coefficients: per operator, the windows of the pulses one after another *)
+  Forall2 (fun o row => exists c, row = List.concat (map (window c o) hs) /\ (k = Control -> c = czero) /\
+                                  (k = Noise -> has_none (row_of hs o) = true -> somes (row_of hs o) <> [] ->
+                                   exists rest, somes (row_of hs o) = c :: rest /\ forallb (ceqb c) rest = true))
+          (r_ops r) (r_rows r) /\
+  (* one identifier mapping per pulse, defined on exactly the identifiers of that pulse *)
+  map (map fst) (r_map r) = map (fun h => map (@e_id oper coef) (h_entries h)) hs.
+Proof.
+  intros H. destruct (concat_result k hs r H) as (Hc & Ho & Hi & Hr & Hm).
+  assert (Hperm : Permutation (sorted_uniq hs) (uniq hs)) by apply sort_by_perm.
+  split; [|split; [|split; [|split; [|split]]]].
+  - rewrite Ho. apply (Permutation_NoDup (l := map (fun u => e_op (snd u)) (uniq hs))).
+    + apply Permutation_map. symmetry. exact Hperm.
+    + apply uniq_nodup.
+  - intros pe Hpe. destruct (uniq_complete hs pe Hpe) as (u & Hu & Eu).
+    rewrite Ho, <- Eu. apply (in_map (fun u => e_op (snd u))). apply (Permutation_in u (Permutation_sym Hperm)). exact Hu.
+  - intros o Hin. rewrite Ho in Hin. apply in_map_iff in Hin. destruct Hin as (u & Eu & Hu).
+    exists u. split; auto. apply uniq_sub. apply (Permutation_in u Hperm). exact Hu.
+  - rewrite Hi. apply sorted_map. apply sort_by_sorted.
+  - rewrite Ho. clear -Hr oeqb_spec. induction Hr as [|u row us rows Hu Hr IH]; simpl; constructor; auto.
+    destruct (complete_row_spec _ _ _ Hu) as (c & E & Hc & Hn).
+    exists c. split; [|split]; auto. rewrite E. apply fill_row_of.
+  - rewrite Hm. apply mappings_keys.
+Qed.
+
+(* ---- success and rejection, completely characterised ---- *)
+Theorem concat_succeeds k hs :
+  oper_ids_clash hs = false ->
+  (k = Control \/ forall u, In u (uniq hs) -> inferable (row_of hs (e_op (snd u))) = true) ->
+  exists r, concatenate_hamiltonian k hs = inr r.
+Proof.
+  intros Hc Hk. unfold Concat.concatenate_hamiltonian. rewrite Hc. cbv zeta.
+  destruct (all_some_exists (fun u => complete_row k (row_of hs (e_op (snd u)))) (sort_by (new_id hs) (uniq hs))) as (rows & E).
+  - intros u Hu. apply complete_row_some. destruct Hk as [->|Hk]; [left; reflexivity|right].
+    apply Hk. apply (Permutation_in u (sort_by_perm (new_id hs) (uniq hs))). exact Hu.
+  - rewrite E. eexists; reflexivity.
+Qed.
+Theorem concat_rejects_no_infer hs u :
+  oper_ids_clash hs = false -> In u (uniq hs) -> inferable (row_of hs (e_op (snd u))) = false ->
+  concatenate_hamiltonian Noise hs = inl ENoInfer.
+Proof.
+  intros Hc Hu Hi. unfold Concat.concatenate_hamiltonian. rewrite Hc. cbv zeta.
+  rewrite (all_some_none (fun u => complete_row Noise (row_of hs (e_op (snd u)))) _ u).
+  - reflexivity.
+  - apply (Permutation_in u (Permutation_sym (sort_by_perm (new_id hs) (uniq hs)))). exact Hu.
+  - apply complete_row_none. exact Hi.
+Qed.
+End Ham.
+
+(* ---- the compatibility hypotheses are satisfiable: two pulses sharing Z, the second also holding X with a
+        constant sensitivity; identifiers clash on purpose ---- *)
+Definition ex_hams : list (ham nat Z) :=
+  [mkHam 2 [mkEntry 3 "N" [1; 2]%Z]; mkHam 1 [mkEntry 1 "N" [5]%Z; mkEntry 3 "Nz" [7]%Z]].
+Example concat_example_rejected :
+  concatenate_hamiltonian nat Z Nat.eqb Z.eqb 0%Z Noise ex_hams = inl (EOperIds Noise).
+Proof. reflexivity. Qed.
+Definition ex_hams2 : list (ham nat Z) :=
+  [mkHam 2 [mkEntry 3 "N" [1; 2]%Z]; mkHam 1 [mkEntry 1 "M" [5]%Z; mkEntry 3 "N" [7]%Z]].
+Definition ex_result2 : hresult nat Z :=
+  mkHRes [1; 3] ["M"; "N"]%string [[5; 5; 5]; [1; 2; 7]]%Z [[("N", "N")]; [("M", "M"); ("N", "N")]]%string.
+Example concat_example_succeeds :
+  concatenate_hamiltonian nat Z Nat.eqb Z.eqb 0%Z Noise ex_hams2 = inr ex_result2.
+Proof. reflexivity. Qed.
+
+(* ================================================================================================ *)
+(* 4. identifier mapping and row bookkeeping: what the property needs and where the pinned code fails  *)
+(* every identifier of every input should be mapped to the identifier its operator carries in the result *)
+Definition lookup (s : string) (m : list (string * string)) : option string :=
+  option_map snd (find (fun kv => String.eqb s (fst kv)) m).
+Definition id_of_op (r : hresult nat Z) (o : nat) : option string :=
+  option_map snd (find (fun oi => Nat.eqb o (fst oi)) (combine (r_ops r) (r_ids r))).
+Definition mapping_sound_on (hs : list (ham nat Z)) : Prop :=
+  forall r, concatenate_hamiltonian nat Z Nat.eqb Z.eqb 0%Z Noise hs = inr r ->
+  forall j h e, nth_error hs j = Some h -> In e (h_entries h) ->
+    lookup (e_id e) (nth j (r_map r) []) = id_of_op r (e_op e).
+Definition hams_ZXZ : list (ham nat Z) :=
+  [mkHam 1 [mkEntry 3 "N" [1%Z]]; mkHam 1 [mkEntry 1 "N" [1%Z]]; mkHam 1 [mkEntry 3 "N" [1%Z]]].
+Theorem mapping_refuted : ~ mapping_sound_on hams_ZXZ.
+Proof.
+  intros H. unfold mapping_sound_on in H.
+  specialize (H _ eq_refl 2 (mkHam 1 [mkEntry 3 "N"%string [1%Z]]) (mkEntry 3 "N"%string [1%Z]) eq_refl (or_introl eq_refl)).
+  vm_compute in H. discriminate.
+Qed.
+(* for two pulses the mapping is right on the same kind of clash *)
+Definition hams_ZX : list (ham nat Z) := [mkHam 1 [mkEntry 3 "N"%string [1%Z]]; mkHam 1 [mkEntry 1 "N"%string [1%Z]]].
+Example mapping_sound_two : mapping_sound_on hams_ZX.
+Proof.
+  intros r Hr j h e Hj He. vm_compute in Hr. inversion Hr; subst; clear Hr.
+  destruct j as [|[|j]]; simpl in Hj.
+  - inversion Hj; subst. simpl in He. destruct He as [<-|[]]. reflexivity.
+  - inversion Hj; subst. simpl in He. destruct He as [<-|[]]. reflexivity.
+  - destruct j; discriminate.
+Qed.
+
+(* rows: control_matrix_atomic[i, idx] = pulse.get_control_matrix(omega) must put the control-matrix row of an
+   operator of pulse i into the row of the same operator of the new pulse *)
+Definition rows_sound_on (hs : list (ham nat Z)) : Prop :=
+  forall r, concatenate_hamiltonian nat Z Nat.eqb Z.eqb 0%Z Noise hs = inr r ->
+  forall i h row k, nth_error hs i = Some h ->
+    nth_error (nth i (row_sources (r_ids r) (r_map r)) []) row = Some (Some k) ->
+    option_map (@e_op nat Z) (nth_error (h_entries h) k) = nth_error (r_ops r) row.
+(* identifiers 'X', 'XY': the suffix changes the order ('XY' < 'X_0') *)
+Definition hams_flip : list (ham nat Z) :=
+  [mkHam 1 [mkEntry 3 "X" [1%Z]; mkEntry 2 "XY" [1%Z]]; mkHam 1 [mkEntry 1 "X" [1%Z]; mkEntry 2 "XY" [1%Z]]].
+Theorem row_assignment_refuted : ~ rows_sound_on hams_flip.
+Proof.
+  intros H. unfold rows_sound_on in H.
+  specialize (H _ eq_refl 0 (mkHam 1 [mkEntry 3 "X"%string [1%Z]; mkEntry 2 "XY"%string [1%Z]]) 0 0 eq_refl eq_refl).
+  vm_compute in H. discriminate.
+Qed.
+
+(* ================================================================================================ *)
+(* 5. the proposed repair of the decision logic satisfies the full statement                          *)
+(* (a) `if calc_filter_function is None and not calc_pulse_correlation_FF:` guards the early exit,
+   (b) `if not equal_n_opers and not calc_pulse_correlation_FF:` guards the from-scratch shortcut,
+   (c) identifier mappings updated for every pulse holding the operator and rows placed by identifier, so the
+       two crashes cannot occur.  This is a model of the PROPOSAL, not of the pinned code.                 *)
+Definition finish_fixed (equal_n : bool) (o : opts) (w : nat) : outcome :=
+  if negb equal_n && negb (o_pc o) then ORet (mkRet PScratch true (Some w) true true (o_gen o) false false)
+  else ORet (mkRet PAtomic true (Some w) true true (o_gen o) (o_pc o) (o_pc o && o_gen o)).
+Definition decide_fixed (maps : list (list (string * string))) (cs : list cache) (o : opts) : outcome :=
+  let tp := forallb c_tp cs in
+  if is_tfalse (o_ff o) && negb (o_pc o) then ORet (ham_only tp) else
+  let equal_n := equal_n_opers maps in
+  match o_omega o with
+  | Some w => finish_fixed equal_n o w
+  | None =>
+      let gs := grids_consulted cs in
+      if negb (all_equal_nat gs) then
+        if is_ttrue (o_ff o) then ORaise EForced
+        else if o_pc o then ORaise ENoFreqPC
+        else ORet (ham_only tp)
+      else if is_tnone (o_ff o) && negb (o_pc o) && (negb equal_n || negb (existsb (fun b => b) (map c_cm cs)))
+      then ORet (ham_only tp)
+      else match gs with w :: _ => finish_fixed equal_n o w | [] => ORet (ham_only tp) end
+  end.
+
+Theorem decision_sound_for_proposed_fix maps cs o :
+  match decide_fixed maps cs o with
+  | ORaise e => (e = EForced \/ e = ENoFreqPC) /\ o_omega o = None /\ all_equal_nat (grids_consulted cs) = false
+  | ORet r => (freq_dependent r = true -> grid_known cs o r) /\ (o_pc o = true -> t_pc r = true)
+  | OCopy => True
+  end.
+Proof.
+  unfold decide_fixed.
+  destruct (o_pc o) eqn:Epc; destruct (o_ff o) eqn:Eff; simpl;
+  try (split; [intros E; discriminate E | intros E; discriminate E]).
+  all: destruct (o_omega o) as [w|] eqn:Eom;
+    [ unfold finish_fixed; rewrite Epc; simpl;
+      try (destruct (equal_n_opers maps); simpl);
+      (split; [intros _; exists w; split; [reflexivity | left; assumption] | intros E; try reflexivity; discriminate E])
+    | ].
+  all: destruct (all_equal_nat (grids_consulted cs)) eqn:Eg; simpl; auto;
+       try (split; [intros E; discriminate E | intros E; discriminate E]).
+  all: try (destruct (negb (equal_n_opers maps) || negb (existsb (fun b => b) (map c_cm cs))); simpl;
+            try (split; [intros E; discriminate E | intros E; discriminate E])).
+  all: destruct (grids_consulted cs) as [|w gs] eqn:Egs; [discriminate Eg|];
+       unfold finish_fixed; rewrite Epc; simpl; try (destruct (equal_n_opers maps); simpl);
+       (split; [intros _; exists w; split; [reflexivity | right; split; [assumption|]] | intros E; try reflexivity; discriminate E]).
+  all: unfold grids_consulted in Egs;
+       assert (Hin : In w (w :: gs)) by (left; reflexivity); rewrite <- Egs in Hin;
+       destruct (existsb (fun b => b) (map c_cm cs)); [eapply grids_compress_in; eauto | assumption].
+Qed.
